@@ -9,6 +9,7 @@ mod exec;
 mod gen;
 mod interpose;
 mod model;
+mod mutate;
 mod ops;
 mod props;
 mod rng;
